@@ -67,7 +67,7 @@ def top_level_split(toks):
 def main(tier, seed):
     res = Result(PID, tier, seed)
     try:
-        translate.run_all()
+        translate.run_all(PID)
     except translate.AnchorLost as e:
         res.violation("translator lost its anchor: %s" % e, {"theorem_or_correspondence": "tools/translate.py gen_nulltable"}, found_input=False)
     pr = coq_prove(PID)
